@@ -139,6 +139,19 @@ func (s *ByteStealer) Write(p []byte) (n int, err error) {
 }
 
 func StealBytes(reader io.WriterTo) ([]byte, error) {
+	switch reader.(type) {
+	case *bytes.Reader, *strings.Reader, *bytes.Buffer:
+		// these hand over their whole content in one Write and never touch it again: safe to steal
+	default:
+		// an arbitrary io.WriterTo (io.MultiReader, bufio.Reader, ...) may reuse its buffer
+		// between Write calls, which would silently change stolen bytes: copy instead
+		var buffer bytes.Buffer
+		if _, err := reader.WriteTo(&buffer); nil != err {
+			return nil, err
+		}
+		return buffer.Bytes(), nil
+	}
+
 	var stealer ByteStealer
 	n, err := reader.WriteTo(&stealer)
 	if nil != err {
